@@ -3,6 +3,7 @@
 package plugin
 
 import (
+	"fmt"
 	"net"
 	"errors"
 	"net/netip"
@@ -272,6 +273,9 @@ func verifC13(t *testing.T, r *vfh.Rand, out *vfh.Out) {
 			as[i] = pool[j]
 		}
 		c13Run(t, out, 64, tcnt, as)
+		if tcnt%3 == 0 { // the same addresses again, flags changed
+			c13Run(t, out, 64, tcnt, flipFlags(as, tcnt))
+		}
 		tcnt++
 	})
 	n := vfh.N(3000, 100000)
@@ -294,6 +298,9 @@ func verifC13(t *testing.T, r *vfh.Rand, out *vfh.Out) {
 			}
 		}
 		c13Run(t, out, 64, i, as)
+		if i%3 == 0 && len(as) > 0 {
+			c13Run(t, out, 64, i, flipFlags(as, i))
+		}
 	}
 	// a failing address source fails RA generation
 	p := &Prefix{Auto: true, Prefix: mp("::/64"), Addrs: func() ([]system.IP, error) { return nil, errors.New("boom") }}
@@ -334,9 +341,38 @@ func c14Pool() []system.IP {
 	}
 }
 
+var (
+	c14Plugins = map[string]*RDNSS{}
+	c14Cur     []system.IP
+)
+
+// flipFlags: the same addresses in the same order, the kernel's flags changed (duplicate address
+// detection finishing, a lifetime running out): tentative / deprecated / temporary toggled on some.
+func flipFlags(as []system.IP, k int) []system.IP {
+	out := append([]system.IP(nil), as...)
+	for i := range out {
+		switch (k + i) % 4 {
+		case 0:
+			out[i].Tentative = !out[i].Tentative
+		case 1:
+			out[i].Deprecated = !out[i].Deprecated
+		case 2:
+			out[i].Temporary = !out[i].Temporary
+		}
+	}
+	return out
+}
+
 func c14Run(t *testing.T, out *vfh.Out, static []netip.Addr, as []system.IP) {
-	rd := &RDNSS{Auto: true, Lifetime: 9 * time.Second, Servers: static,
-		Addrs: func() ([]system.IP, error) { return as, nil }}
+	// one long-lived plugin per static list, asked about changing address lists
+	c14Cur = as
+	key := fmt.Sprint(static)
+	rd, ok := c14Plugins[key]
+	if !ok || vfPrepareIfi != nil {
+		rd = &RDNSS{Auto: true, Lifetime: 9 * time.Second, Servers: static,
+			Addrs: func() ([]system.IP, error) { return c14Cur, nil }}
+		c14Plugins[key] = rd
+	}
 	if vfPrepareIfi != nil {
 		rd.Addrs = nil
 		if err := rd.Prepare(vfPrepareIfi); err != nil {
@@ -408,6 +444,9 @@ func verifC14(t *testing.T, r *vfh.Rand, out *vfh.Out) {
 			as[i] = pool[j]
 		}
 		c14Run(t, out, statics[cnt%len(statics)], as)
+		if cnt%3 == 0 { // the same addresses again, flags changed
+			c14Run(t, out, statics[cnt%len(statics)], flipFlags(as, cnt))
+		}
 		cnt++
 	})
 	n := vfh.N(3000, 100000)
